@@ -77,6 +77,14 @@ CLAIMED = {
     note='Rank is a structural bound (0..3 quick, 0..4 thorough), dims <= B (5 / 8); (b) enumerates shapes (a size bound like an unwinding bound) while contents are '
          'symbolic; Preconditioner objects in (a) are built without __init__ (its reshape needs concrete shapes).',
     design='§3 C06', technique='forking proxy symbolic execution of Python (z3 per path) + jaxpr->SMT index-term evaluation'),
+  'C10': dict(
+    text='Bounded SMT verification (exact reals) on the jaxprs of the real functions: pack/unpack round trips for all field values (no slot overlap), the compressed '
+         'application path of Preconditioner.preconditioned_grad equals contraction with the dense matrix c(I - VV\') + V diag(e) V\' for all V, e, c and gradients of '
+         'rank 1..3 on every axis, and the packed output of _low_rank_root (eigh stubbed) has the documented fields (|r| largest / smallest unpadded eigen-directions, '
+         'max(e,ridge)^(-1/p), constant = mean of the remaining root values over the unpadded dimensions; padding and all-padding cases).',
+    note='eigh outputs are fresh ascending values (free contract), pow uninterpreted, absolute ridge (power iteration not encoded); d <= 7, |r| <= 3; the claim that '
+         'the denoted matrix inverts A+ridge I on the kept directions needs orthonormality and is declined.',
+    design='§3 C10', technique='jaxpr->SMT symbolic evaluation (index terms + polynomial identities), stubbed eigh, z3'),
 }
 NA = {
   'C07': 'decided by tracing each configuration (abstract evaluation), no input/step/state variable is left for a solver to range over; '
